@@ -78,7 +78,7 @@ func init() {
 					// (fixed witnesses above); beyond ln(10)*100001 the overflow is real.
 					x.E = -nd + g.R.between(3, 4)
 					if g.R.Intn(3) == 0 {
-						x.E = -nd + g.R.between(6, 7) // true overflow / underflow for every context
+						x.E = -nd + g.R.between(7, 8) // |x| in [10^6, 10^8): true overflow / underflow for every context (ln(10)*100001 < 2.4*10^5)
 					}
 					b := bigOfLimbs(x.C)
 					if x.E == -nd+4 && b.String()[0] >= '2' {
